@@ -50,6 +50,19 @@ type refSender struct {
 	stats    []*types.Stat
 }
 
+// announceOtherSizes makes the STATs of the given files announce a size that
+// differs from the number of bytes that will be sent for them (a file that
+// changed between the sender's walk and its read: still a conforming stream).
+func (rs *refSender) announceOtherSizes(off map[string]int64) {
+	for i := range rs.T.Entries {
+		if d, ok := off[rs.T.Entries[i].Path]; ok {
+			if n := rs.stats[i].Size + d; n >= 0 {
+				rs.stats[i].Size = n
+			}
+		}
+	}
+}
+
 func newRefSender(t *tree.Tree, r *core.Rand) *refSender {
 	rs := &refSender{T: t, R: r, Chunk: "mixed", Inter: "sequential", reqSeen: map[uint32]bool{}, termSent: map[uint32]bool{}, payload: map[uint32][]byte{}}
 	rs.cond = sync.NewCond(&rs.mu)
